@@ -711,6 +711,26 @@ fn generate(a: &Args, name: &str, family: u8) -> i32 {
             sink.case(&format!("e2e iter {} {} | {}", cfg.tokens(true), ty.tokens(), items2), &ans);
         }
     }
+    // implementation-only oracle of the duplicate-key family: the Error policy locates the error AT THE REPEATED KEY,
+    // also when the repeated key is written as an alias of the first one
+    if family == 2 {
+        let mut fails: Vec<String> = Vec::new();
+        for (text, line, col) in [("&k a: 1\n*k : 2\n", 2u64, 1u64), ("a: 1\nb: 2\na: 3\n", 3, 1), ("{&k a: 1, *k : 2}\n", 1, 12)] {
+            let r = serde_saphyr::from_str::<serde_json::Value>(text);
+            sink.count("dup_oracle.cases");
+            match r {
+                Err(e) if crate::errs::kind(&e) == "DuplicateMappingKey" => {
+                    let l = e.location().map(|l| (l.line() as u64, l.column() as u64));
+                    if l != Some((line, col)) {
+                        let id = if text.contains('*') { "C04-duplicate-alias-key-located-at-anchor" } else { "C04-duplicate-key-location" };
+                        fails.push(serde_json::json!({"id": id, "what": "duplicate-key error is not located at the repeated key", "input": text, "observed": format!("{l:?}"), "expected": format!("({line}, {col})")}).to_string());
+                    }
+                }
+                other => fails.push(serde_json::json!({"id": "C04-duplicate-key-not-reported", "what": "repeated key under the Error policy", "input": text, "observed": format!("{:?}", other.map_err(|e| crate::errs::kind(&e).to_string())), "expected": "DuplicateMappingKey"}).to_string()),
+            }
+        }
+        std::fs::write(format!("{}/{}.oracle.jsonl", a.out, name), fails.join("\n")).unwrap();
+    }
     let nt = sink.stats.get("distinct_nontrivial").copied().unwrap_or(0);
     for (k, v) in IDENT_STATS.with(|s| std::mem::take(&mut *s.borrow_mut())) { *sink.stats.entry(k).or_insert(0) += v; }
     sink.finish(&a.out, name, serde_json::json!({
